@@ -31,15 +31,19 @@ CLAIM = dict(
     "weight; mass conservation is preserved by reversal and scaling; therefore the discrete minimum is 0 for identical distributions, "
     "symmetric, positively homogeneous in the masses and in a constant weight, and every mass-conserving flux (converged or not) "
     "costs at least the minimum; on 1-D grids the mass-conserving flux is unique (prefix sums) so every method/mobility must return "
-    "its cost; EMD rescaling algebra; dispatch table re-tabulated from the code. OBSERVED by metamorphic runs of the real Newton/"
+    "its cost; FIRST-MOMENT BOUND |k|*||sum_c x_c vol f_c||_2 <= cost(u) for every mass-conserving flux, real quadrature nodes, "
+    "Euclidean norm per quadrature point (proved to be a seminorm), for every rule with non-negative weights of total 1 and first "
+    "moments 1/2 - discharged from C15's theorems for gauss_reference_cell of every accepted order (incl. order 0 and 'max') and the "
+    "corner rule, dims 1-3 (discrete integration by parts via div_adjoint + Jensen); EMD rescaling algebra; dispatch table "
+    "re-tabulated from the code. OBSERVED by metamorphic runs of the real Newton/"
     "Bregman/cv2 back-ends (not proved: the iterations themselves): returned distance = independently recomputed cost of the flux "
     "recovered from the returned cell fluxes, which conserves mass; identical -> 0; swap; x2^k and generic scaling (Bregman with "
     "the regularisation parameter L scaled along - with fixed L its unconverged iterates are not homogeneous: known finding); constant "
-    "weight; first-moment bound; 1-D and thin n x 1 (x 1) grids against the closed form for every method x mobility x L1 mode; "
+    "weight; first-moment bound (also proved, see above); 1-D and thin n x 1 (x 1) grids against the closed form for every method x mobility x L1 mode; "
     "front-end = back-end; EMD single-cell moves, symmetry, scaling, first-moment bound.",
     note="Not covered: convergence of Newton/Bregman to the minimum (C04/C08 own the solver internals); a certified brute-force minimum "
     "(no SOCP solver offline) - replaced by the proved ge_min applied to the observed feasibility + cost tie; uniqueness on thin 2-D/3-D "
-    "grids and the first-moment bound are observed, not proved; cv2.EMD itself.",
+    "grids is observed, not proved; cv2.EMD itself.",
     technique="Lean 4 proof (algebra of the cost functional and constraint) + metamorphic oracle on the real solvers + 1-D closed-form correspondence",
 )
 
@@ -528,6 +532,17 @@ def run(ctx):
 
     t = tabulate_dispatch(d)
     ctx.write_gen("TransportDispatch", emit_dispatch(t))
+    # the first-moment theorems are about the quadrature tables of C15: re-extract them from the current source with
+    # C15's own generator (validated there against the running gauss()); on failure the committed table is kept.
+    try:
+        from . import c15
+        from ..lib.core import REPO
+
+        ex = c15.extract((REPO / "src" / "darsia" / "utils" / "quadrature.py").read_text())
+        ctx.write_gen("QuadratureTables", c15.emit(ex, c15.tabulate_corners(d)))
+        ctx.cov["quadrature_tables"] = "re-extracted from the current source (C15 generator)"
+    except Exception as e:  # noqa: BLE001
+        ctx.cov["quadrature_tables"] = f"committed table kept ({type(e).__name__}: {str(e)[:120]})"
     ctx.prove("C05")
     # dispatch table: model (generated) vs implementation, and the statement on the implementation
     lines = [f"dispatch {k}" for k in METHODS]
